@@ -255,6 +255,50 @@ func TestVerifC18Race(t *testing.T) {
 		}
 	})
 
+	// first use of a predefined CMap by several goroutines at once: every caller must get
+	// the one cached value (each name can be "first used" once per process, so every case
+	// takes its own names)
+	allNames := strings.Fields(c18rPredefinedNames)
+	r.Phase("predefined-first-use", len(allNames)/3, func(c *kit.Case) {
+		for _, name := range allNames[3*c.Index : 3*c.Index+3] {
+			const ng = 8
+			var wg sync.WaitGroup
+			start := make(chan struct{})
+			res := make([]*cmap.File, ng)
+			errs := make([]error, ng)
+			for gi := 0; gi < ng; gi++ {
+				wg.Add(1)
+				go func(gi int) {
+					defer wg.Done()
+					<-start
+					res[gi], errs[gi] = cmap.Predefined(name)
+				}(gi)
+			}
+			close(start)
+			wg.Wait()
+			for gi := 0; gi < ng; gi++ {
+				if errs[gi] != nil || res[gi] == nil {
+					c.Violationf("race/predefined-first-use/error", "Predefined(%s): %v", name, errs[gi])
+					break
+				}
+				if res[gi] != res[0] {
+					c.Violationf("race/predefined-first-use/different-values", "8 goroutines asked for the predefined CMap %s at the same time and got different *File values", name)
+					break
+				}
+				if !res[gi].IsPredefined() {
+					c.Violationf("race/predefined-first-use/not-predefined", "the value returned by Predefined(%s) to goroutine %d does not report IsPredefined()", name, gi)
+					break
+				}
+			}
+			again, _ := cmap.Predefined(name)
+			if again != res[0] {
+				c.Violationf("race/predefined-first-use/cache-differs", "a later Predefined(%s) returns another value than the first callers got", name)
+			}
+			c.R.Count("predefined_first_uses", 1)
+		}
+		c.Distinct(fmt.Sprint("predef", c.Index))
+	})
+
 	// independent Writers and Readers in different goroutines must not
 	// interfere through package-level state (zlib pools, predefined CMap
 	// cache, CID mappings)
@@ -315,3 +359,7 @@ func TestVerifC18Race(t *testing.T) {
 		}
 	})
 }
+
+// the predefined CMaps of ISO 32000 (font/cmap/predefined), except the six the
+// "independent" phase loads
+const c18rPredefinedNames = `78-EUC-H 78-EUC-V 78-H 78-RKSJ-H 78-RKSJ-V 78-V 78ms-RKSJ-H 78ms-RKSJ-V 83pv-RKSJ-H 90ms-RKSJ-V 90msp-RKSJ-H 90msp-RKSJ-V 90pv-RKSJ-H 90pv-RKSJ-V Add-H Add-RKSJ-H Add-RKSJ-V Add-V B5-H B5-V B5pc-H B5pc-V CNS-EUC-H CNS-EUC-V CNS1-H CNS1-V CNS2-H CNS2-V ETHK-B5-H ETHK-B5-V ETen-B5-H ETen-B5-V ETenms-B5-H ETenms-B5-V EUC-H EUC-V Ext-H Ext-RKSJ-H Ext-RKSJ-V Ext-V GB-EUC-H GB-EUC-V GB-H GB-V GBK-EUC-V GBK2K-H GBK2K-V GBKp-EUC-H GBKp-EUC-V GBT-EUC-H GBT-EUC-V GBT-H GBT-V GBTpc-EUC-H GBTpc-EUC-V GBpc-EUC-H GBpc-EUC-V H HKdla-B5-H HKdla-B5-V HKdlb-B5-H HKdlb-B5-V HKgccs-B5-H HKgccs-B5-V HKm314-B5-H HKm314-B5-V HKm471-B5-H HKm471-B5-V HKscs-B5-H HKscs-B5-V Hankaku Hiragana KSC-EUC-H KSC-EUC-V KSC-H KSC-Johab-H KSC-Johab-V KSC-V KSCms-UHC-H KSCms-UHC-HW-H KSCms-UHC-HW-V KSCms-UHC-V KSCpc-EUC-H KSCpc-EUC-V Katakana NWP-H NWP-V RKSJ-H RKSJ-V Roman UniCNS-UCS2-H UniCNS-UCS2-V UniCNS-UTF16-H UniCNS-UTF16-V UniCNS-UTF32-H UniCNS-UTF32-V UniCNS-UTF8-H UniCNS-UTF8-V UniGB-UCS2-H UniGB-UCS2-V UniGB-UTF16-H UniGB-UTF16-V UniGB-UTF32-H UniGB-UTF32-V UniGB-UTF8-H UniGB-UTF8-V UniJIS-UCS2-H UniJIS-UCS2-HW-H UniJIS-UCS2-HW-V UniJIS-UCS2-V UniJIS-UTF16-V UniJIS-UTF32-H UniJIS-UTF32-V UniJIS-UTF8-H UniJIS-UTF8-V UniJIS2004-UTF16-H UniJIS2004-UTF16-V UniJIS2004-UTF32-H UniJIS2004-UTF32-V UniJIS2004-UTF8-H UniJIS2004-UTF8-V UniJISPro-UCS2-HW-V UniJISPro-UCS2-V UniJISPro-UTF8-V UniJISX0213-UTF32-H UniJISX0213-UTF32-V UniJISX02132004-UTF32-H UniJISX02132004-UTF32-V UniKS-UCS2-V UniKS-UTF16-H UniKS-UTF16-V UniKS-UTF32-H UniKS-UTF32-V UniKS-UTF8-H UniKS-UTF8-V V WP-Symbol`
